@@ -132,3 +132,12 @@ def norm_minmax(t):
         if m is not None:
             return ("call", ("builtin", m[0]), tuple(sorted(m[1], key=repr)), ())
     return t
+
+
+def same_minmax(a, b) -> bool:
+    """Are a and b the same two-argument min / max, whatever their spelling and argument order?"""
+    from .canon import canon
+    ma, mb = minmax_form(a), minmax_form(b)
+    if ma is None or mb is None or ma[0] != mb[0]:
+        return False
+    return {repr(canon(x)) for x in ma[1]} == {repr(canon(x)) for x in mb[1]}
